@@ -38,6 +38,70 @@ BORDA = ("        top_score = self.n_candidates + self.base - 1\n"
          "            for rank in range(self.n_candidates)\n"
          "        ]\n")
 
+UTIL, CORE = 'votelib/util.py', 'votelib/evaluate/core.py'
+SORTED_BODY = ("    return list(sorted(\n"
+               "        votes.items(),\n"
+               "        key=operator.itemgetter(1),\n"
+               "        reverse=descending\n"
+               "    ))\n")
+GNB_BODY = ("""    sorted_items = votelib.util.sorted_votes(votes)
+    if len(sorted_items) > n_seats:
+        # find if there is a tie between the last elected and first unelected
+        threshold_votes = sorted_items[n_seats-1][1]
+        if sorted_items[n_seats][1] == threshold_votes:
+            # tie detected, find all tied
+            tied = []
+            n_untied = None
+            for i, item in enumerate(sorted_items):
+                cand, n_votes = item
+                if n_votes == threshold_votes:
+                    tied.append(cand)
+                    if n_untied is None:
+                        n_untied = i
+            n_tie_places = n_seats - n_untied
+            return (
+                [item[0] for item in sorted_items[:n_untied]]
+                + [Tie(tied)] * n_tie_places
+            )
+        else:
+            return [cand for cand, n_votes in sorted_items[:n_seats]]
+    else:
+        return [cand for cand, n_votes in sorted_items]
+""")
+# an equivalent spelling: operands swapped, early returns, locals renamed, the loop target unpacked in the for clause, the
+# first index kept by a conditional expression, the ties listed by a comprehension
+GNB_RESTYLED = ("""    ranked = votelib.util.sorted_votes(votes)
+    if not n_seats < len(ranked):
+        return [c for c, _ in ranked]
+    cut = ranked[n_seats - 1][1]
+    if cut != ranked[n_seats][1]:
+        return [c for c, v in ranked[:n_seats]]
+    group = []
+    first = None
+    for pos, (c, v) in enumerate(ranked):
+        if cut == v:
+            group.append(c)
+            if first is None:
+                first = pos
+    k = n_seats - first
+    return [c for c, v in ranked[:first]] + [Tie(group) for _ in range(k)]
+""")
+# harmless/core-1: a mask comprehension + itertools.compress (the translator does not read that: fallback, no alarm)
+GNB_COMPRESS = ("""    sorted_items = votelib.util.sorted_votes(votes)
+    ranking = [cand for cand, n_votes in sorted_items]
+    if len(sorted_items) > n_seats:
+        threshold_votes = sorted_items[n_seats-1][1]
+        if sorted_items[n_seats][1] == threshold_votes:
+            is_tied = [
+                n_votes == threshold_votes for cand, n_votes in sorted_items
+            ]
+            tied = list(itertools.compress(ranking, is_tied))
+            n_untied = is_tied.index(True)
+            return ranking[:n_untied] + [Tie(tied)] * (n_seats - n_untied)
+        return ranking[:n_seats]
+    return ranking
+""")
+
 # (label, unit, GenTie file, source file, [(old, new), ..], expectation)
 # the jump-threshold line of ThresholdOpenList.evaluate as written before / after fixes/C11-openlist-jump-exact.diff (an `old` that is a
 # tuple lists alternative spellings of the same source text: the first one present is edited)
@@ -171,6 +235,41 @@ EDITS = [
     ('SequenceBased: pads with the last score', 'Rankscore', 'GenTie_Rankscore', RS,
      [("        return select_padded(self.sequence, n_ranked)\n", "        return select_padded(self.sequence, n_ranked, 1)\n")], 'breaks'),
     ('Dowdall: 1 / (rank + 2)', 'Rankscore', 'GenTie_Rankscore', RS, [("Fraction(1, rank + 1)", "Fraction(1, rank + 2)")], 'breaks'),
+    # ---- util.py sorted_votes / core.py get_n_best, Plurality.evaluate (unit Core, C09)
+    ('unchanged util.py / core.py', 'Core', 'GenTie_Core', CORE, [], 'holds'),
+    ('sorted_votes: reverse dropped', 'Core', 'GenTie_Core', UTIL, [("        reverse=descending\n", "")], 'breaks'),
+    ('sorted_votes: reverse=not descending', 'Core', 'GenTie_Core', UTIL, [("reverse=descending", "reverse=not descending")], 'breaks'),
+    ('sorted_votes: sorted by candidate', 'Core', 'GenTie_Core', UTIL, [("operator.itemgetter(1)", "operator.itemgetter(0)")], 'rejects'),
+    ('sorted_votes: ascending sort reversed (stability lost)', 'Core', 'GenTie_Core', UTIL,
+     [(SORTED_BODY, "    result = list(sorted(votes.items(), key=operator.itemgetter(1)))\n    return result[::-1] if descending else result\n")], 'breaks'),
+    ('sorted_votes: input reversed first (stability lost)', 'Core', 'GenTie_Core', UTIL,
+     [("        votes.items(),\n", "        list(reversed(list(votes.items()))),\n")], 'breaks'),
+    ('sorted_votes: lambda key, no list()', 'Core', 'GenTie_Core', UTIL,
+     [(SORTED_BODY, "    pairs = votes.items()\n    return sorted(pairs, reverse=descending, key=lambda kv: kv[1])\n")], 'holds'),
+    ('sorted_votes: reversed input, ascending, reversed again', 'Core', 'GenTie_Core', UTIL,
+     [(SORTED_BODY, "    if not descending:\n        return sorted(votes.items(), key=lambda kv: kv[1])\n"
+                    "    return list(reversed(sorted(list(reversed(list(votes.items()))), key=lambda kv: kv[1])))\n")], 'holds'),
+    ('sorted_votes: operator rebound', 'Core', 'GenTie_Core', UTIL, [("import operator\n", "import operator\noperator = None\n")], 'rejects'),
+    ('sorted_votes: sort by (votes, name)', 'Core', 'GenTie_Core', UTIL,
+     [("key=operator.itemgetter(1)", "key=lambda kv: (kv[1], str(kv[0]))")], 'rejects'),
+    ('get_n_best: guard > becomes >=', 'Core', 'GenTie_Core', CORE, [("    if len(sorted_items) > n_seats:\n", "    if len(sorted_items) >= n_seats:\n")], 'breaks'),
+    ('get_n_best: n_tie_places one more', 'Core', 'GenTie_Core', CORE, [("n_tie_places = n_seats - n_untied\n", "n_tie_places = n_seats - n_untied + 1\n")], 'breaks'),
+    ('get_n_best: n_tie_places one less', 'Core', 'GenTie_Core', CORE, [("n_tie_places = n_seats - n_untied\n", "n_tie_places = n_seats - n_untied - 1\n")], 'breaks'),
+    ('get_n_best: group test == becomes >=', 'Core', 'GenTie_Core', CORE, [("                if n_votes == threshold_votes:\n", "                if n_votes >= threshold_votes:\n")], 'breaks'),
+    ('get_n_best: threshold read one place later', 'Core', 'GenTie_Core', CORE, [("threshold_votes = sorted_items[n_seats-1][1]", "threshold_votes = sorted_items[n_seats][1]")], 'breaks'),
+    ('get_n_best: last tied index instead of first', 'Core', 'GenTie_Core', CORE, [("                    if n_untied is None:\n                        n_untied = i\n", "                    n_untied = i\n")], 'breaks'),
+    ('get_n_best: untied winners cut at n_seats', 'Core', 'GenTie_Core', CORE, [("for item in sorted_items[:n_untied]]", "for item in sorted_items[:n_seats]]")], 'breaks'),
+    ('get_n_best: ascending sort', 'Core', 'GenTie_Core', CORE, [("votelib.util.sorted_votes(votes)\n    if len", "votelib.util.sorted_votes(votes, False)\n    if len")], 'breaks'),
+    ('get_n_best: restyled (swapped operands, early returns, renamed, unpacked target, tie comprehension)', 'Core', 'GenTie_Core', CORE,
+     [(GNB_BODY, GNB_RESTYLED)], 'holds'),
+    ('get_n_best: mask + itertools.compress (harmless/core-1)', 'Core', 'GenTie_Core', CORE,
+     [("import inspect\n", "import inspect\nimport itertools\n"), (GNB_BODY, GNB_COMPRESS)], 'rejects'),
+    ('get_n_best: while loop', 'Core', 'GenTie_Core', CORE,
+     [("            for i, item in enumerate(sorted_items):\n                cand, n_votes = item\n",
+       "            i = -1\n            while i + 1 < len(sorted_items):\n                i += 1\n                cand, n_votes = sorted_items[i]\n")], 'rejects'),
+    ('get_n_best: Tie rebound', 'Core', 'GenTie_Core', CORE, [("def get_n_best(votes", "Tie = frozenset\n\n\ndef get_n_best(votes")], 'rejects'),
+    ('Plurality: one seat more', 'Core', 'GenTie_Core', CORE, [("        return get_n_best(votes, n_seats)\n", "        return get_n_best(votes, n_seats + 1)\n")], 'breaks'),
+    ('Plurality: through a local', 'Core', 'GenTie_Core', CORE, [("        return get_n_best(votes, n_seats)\n", "        k = n_seats\n        return get_n_best(votes, k)\n")], 'holds'),
 ]
 
 
@@ -180,7 +279,7 @@ def main():
     bad = 0
     try:
         src = os.path.join(tmp, 'repo')
-        for rel in (THR, APP, OL, RS, 'votelib/component/divisor.py', 'votelib/component/quota.py', 'votelib/component/pairwin_scorer.py'):
+        for rel in (THR, APP, OL, RS, UTIL, CORE, 'votelib/component/divisor.py', 'votelib/component/quota.py', 'votelib/component/pairwin_scorer.py'):
             os.makedirs(os.path.dirname(os.path.join(src, rel)), exist_ok=True)
             shutil.copy(os.path.join(repo, rel), os.path.join(src, rel))
         cq = os.path.join(tmp, 'coq')
